@@ -5,12 +5,13 @@
 //   ie <15 patterns>             -> "ie <exact sign>"
 //   o  <12 patterns in [1,2)>    -> "o <exact sign> <adaptive sign>"
 //   i  <15 patterns in [1,2)>    -> "i <exact sign> <adaptive sign>"
-//   box <anchor xyz, sides xyz>  -> "box"   (implementation-level oracle only: constructs the real
-//                                   NewVoronoiGrid for that simulation box with generators in the
-//                                   corners, on the faces and inside, and checks that every coordinate
-//                                   the cell construction hands to the predicates - rescaled
-//                                   generators, the four corners of the all-encompassing tetrahedron of
-//                                   the rescaled box, wall copies - lies in [1,2))
+//   box <anchor xyz, sides xyz, n generators xyz>
+//                                -> "box <rescaled box anchor, sides> <rescaled tetrahedron> <rescaled
+//                                   generators>" as stored by the real NewVoronoiGrid constructor (compared
+//                                   bit for bit with the Lean Float model of the same formulas); oracle:
+//                                   every coordinate the cell construction hands to the predicates
+//                                   (generators, box corners, tetrahedron vertices, wall copies) lies in
+//                                   [1,2) and the rescaling is monotone per axis
 // and, when the property itself fails on the implementation, lines
 //   ORACLE line=<n> <what>
 // (exact routine != sign of the determinant evaluated independently with unbounded integers by
@@ -139,22 +140,26 @@ static void perm_oracle(F f, const char *name, const CV *p, size_t n, int ref,
   }
 }
 
-// the precondition of the predicates as established by the Voronoi construction
-static void range_oracle(const CV &anchor, const CV &sides, std::ostringstream &bad) {
-  std::vector< CV > pos;
-  // generators on the lower faces (fraction 0), in the middle and just inside the upper faces
-  // (the box is half open: a generator exactly on an upper face is not a valid input)
-  const double f[3] = {0., 0.5, 1. - 1.e-9};
-  for (int i = 0; i < 3; ++i)
-    for (int j = 0; j < 3; ++j)
-      for (int k = 0; k < 3; ++k)
-        pos.push_back(CV(anchor.x() + f[i] * sides.x(), anchor.y() + f[j] * sides.y(),
-                         anchor.z() + f[k] * sides.z()));
-  pos.push_back(CV(anchor.x() + 0.3 * sides.x(), anchor.y() + 0.7 * sides.y(),
-                   anchor.z() + 0.9 * sides.z()));
+// the precondition of the predicates as established by the Voronoi construction: constructs the
+// real NewVoronoiGrid for the box with the given generators, prints what it stores (rescaled box
+// anchor and sides, rescaled tetrahedron, rescaled generators; compared with the Lean Float model of
+// the same formulas) and checks range and monotonicity of the rescaling
+static void range_oracle(const CV &anchor, const CV &sides, const std::vector< CV > &pos,
+                         std::ostringstream &bad) {
   const Box<> box(anchor, sides);
   NewVoronoiGrid grid(pos, box);
   const NewVoronoiBox &rb = grid._real_rescaled_box;
+  const CV rba = rb._box.get_anchor();
+  const CV rbs = rb._box.get_sides();
+  std::cout << "box " << showF(rba.x()) << " " << showF(rba.y()) << " " << showF(rba.z()) << " "
+            << showF(rbs.x()) << " " << showF(rbs.y()) << " " << showF(rbs.z());
+  for (size_t k = 0; k < 4; ++k)
+    for (int c = 0; c < 3; ++c)
+      std::cout << " " << showF(rb._tetrahedron[k][c]);
+  for (size_t i = 0; i < grid._real_rescaled_positions.size(); ++i)
+    for (int c = 0; c < 3; ++c)
+      std::cout << " " << showF(grid._real_rescaled_positions[i][c]);
+  std::cout << "\n";
   int nbad = 0;
   auto chk = [&](const char *what, size_t idx, int c, double v) {
     if (!(v >= 1. && v < 2.)) {
@@ -170,8 +175,13 @@ static void range_oracle(const CV &anchor, const CV &sides, std::ostringstream &
   for (size_t k = 0; k < 4; ++k)
     for (int c = 0; c < 3; ++c)
       chk("tetrahedron-corner", k, c, rb._tetrahedron[k][c]);
-  for (size_t i = 0; i < grid._real_rescaled_positions.size(); ++i) {
-    const CV &p = grid._real_rescaled_positions[i];
+  for (int c = 0; c < 3; ++c) {
+    chk("box-bottom-corner", 0, c, rba[c]);
+    chk("box-top-corner", 0, c, rba[c] + rbs[c]);
+  }
+  const std::vector< CV > &rp = grid._real_rescaled_positions;
+  for (size_t i = 0; i < rp.size(); ++i) {
+    const CV &p = rp[i];
     for (int c = 0; c < 3; ++c)
       chk("generator", i, c, p[c]);
     const uint_fast32_t walls[6] = {NEWVORONOICELL_BOX_LEFT,  NEWVORONOICELL_BOX_RIGHT,
@@ -185,6 +195,26 @@ static void range_oracle(const CV &anchor, const CV &sides, std::ostringstream &
   }
   if (nbad > 3)
     bad << " (+" << (nbad - 3) << " more)";
+  // monotone per axis: the order of the real coordinates is never reversed, the tetrahedron
+  // encloses the box, the box encloses the generators
+  int nmono = 0;
+  for (int c = 0; c < 3 && nmono < 2; ++c) {
+    for (size_t i = 0; i < rp.size() && nmono < 2; ++i) {
+      for (size_t j = 0; j < rp.size() && nmono < 2; ++j)
+        if (pos[i][c] < pos[j][c] && rp[i][c] > rp[j][c]) {
+          ++nmono;
+          bad << " rescaling-not-monotone:generators" << i << "," << j << "." << "xyz"[c];
+        }
+      if (pos[i][c] >= anchor[c] && rp[i][c] < rba[c]) {
+        ++nmono;
+        bad << " rescaling-not-monotone:generator" << i << "-below-box-bottom." << "xyz"[c];
+      }
+    }
+    if (rb._tetrahedron[0][c] > rba[c] || rba[c] + rbs[c] > rb._tetrahedron[c + 1][c]) {
+      ++nmono;
+      bad << " rescaling-not-monotone:box-not-inside-tetrahedron." << "xyz"[c];
+    }
+  }
 }
 
 int main() {
@@ -203,9 +233,12 @@ int main() {
                 << " "
                 << std::numeric_limits< ExactGeometricTests::int_insphere >::digits
                 << "\n";
-    } else if (w[0] == "box" && read_points(w, 2, p)) {
-      std::cout << "box\n";
-      range_oracle(p[0], p[1], bad);
+    } else if (w[0] == "box" && w.size() >= 10 && (w.size() - 1) % 3 == 0) {
+      const size_t np = (w.size() - 1) / 3;
+      std::vector< CV > q(np);
+      for (size_t i = 0; i < np; ++i)
+        q[i] = CV(dbl(w[1 + 3 * i]), dbl(w[2 + 3 * i]), dbl(w[3 + 3 * i]));
+      range_oracle(q[0], q[1], std::vector< CV >(q.begin() + 2, q.end()), bad);
     } else if (w[0] == "oe" && read_points(w, 4, p)) {
       const int e = o_exact(p);
       std::cout << "oe " << e << "\n";
